@@ -1181,6 +1181,26 @@ func splitFirstSexp(s string) (string, string) {
 
 // SolveAll runs obligations on a worker pool.
 func SolveAll(obls []*Obligation, timeoutS int, workers int, keep bool) {
+	// terms memoise their text and quantifier flag lazily: force both before the workers share them
+	seenVC := map[*VC]bool{}
+	for _, o := range obls {
+		if o.Goal != nil {
+			_ = o.Goal.String()
+			hasQuant(o.Goal)
+		}
+		if o.Guard != nil {
+			_ = o.Guard.String()
+		}
+		if o.vc != nil && !seenVC[o.vc] {
+			seenVC[o.vc] = true
+			for _, it := range o.vc.items {
+				if it.Assert != nil {
+					_ = it.Assert.String()
+					hasQuantDeep(it.Assert)
+				}
+			}
+		}
+	}
 	var wg sync.WaitGroup
 	ch := make(chan *Obligation)
 	for i := 0; i < workers; i++ {
@@ -1416,4 +1436,15 @@ func groundArgsAt(t *Term, want map[string]bool, emit func(*Term)) {
 		}
 		groundArgsAt(a, want, emit)
 	}
+}
+
+// hasQuantDeep memoises hasQuant on every subterm (single-threaded warm-up before parallel solving).
+func hasQuantDeep(t *Term) {
+	if t == nil || t.hq != 0 {
+		return
+	}
+	for _, a := range t.Args {
+		hasQuantDeep(a)
+	}
+	hasQuant(t)
 }
